@@ -121,13 +121,16 @@ ATOMS = [S("datetime"), S("date"), S("bytes"), S("uuid4"), S("datetime", call(M.
 
 NONSTR = [("dict", ((1, False, INT), (None, True, SX), ((1, 2), False, INT)), False),
           ("dict", ((0, False, SX), (b"k", True, INT), ("", False, INT), (1, True, SX)), True),
-          ("dict", ((None, False, INT), (-1, True, INT)), False)]
+          ("dict", ((None, False, INT), (-1, True, INT)), False),
+          # a key that reads like a path into a sibling ("user.name" next to "user": dict)
+          ("dict", (("user", False, ("dict", (("id", False, INT), ("name", True, SX)), False)),
+                    ("user.name", True, SX), ("user.zip", True, INT)), False)]
 
 
 def has_nonstr_key(t):
     if isinstance(t, tuple):
         if t and t[0] == "dict" and t[1]:
-            if any(not isinstance(k, str) for k, _, _ in t[1]):
+            if any(not isinstance(k, str) or "." in k for k, _, _ in t[1]):
                 return True
         return any(has_nonstr_key(x) for x in t)
     return False
